@@ -1,0 +1,39 @@
+//go:build verif
+
+// Contracts for gvc (/verif). Comment-only: this file adds no declarations.
+
+package getopt
+
+// C38 (and the C17 sweep): option parsing never panics, for every argument
+// list (including arguments that are not valid UTF-8), and the per-argument
+// scanners return what their callers index into.
+
+//@ func findShort
+//@   props C38 C17
+//@   pure
+
+//@ func parseLong
+//@   props C38 C17
+//@   results opt needArg
+//@   ensures opt != nil && opt.Spec != nil && opt.Long
+//@   ensures needArg ==> len(opt.Argument) == 0 && !opt.Unknown
+
+//@ func parseShort
+//@   props C38 C17
+//@   results opts needArg
+//@   loop 1 invariant range_pos > 0 ==> len(opts) >= 1
+//@   loop 1 invariant !needArg
+//@   loop 1 invariant forall k int :: 0 <= k && k < len(opts) ==> opts[k] != nil
+//   a non-empty cluster yields at least one option; when an argument is still needed it is the last one's
+//@   ensures len(s) >= 1 ==> len(opts) >= 1
+//@   ensures needArg ==> len(opts) >= 1
+//@   ensures forall k int :: 0 <= k && k < len(opts) ==> opts[k] != nil
+
+//@ func parse
+//@   props C38 C17
+//@   requires forall k int :: 0 <= k && k < len(spec) ==> spec[k] != nil
+
+//@ func Complete
+//@   props C38 C17
+//@   requires len(args) >= 1
+//@   requires forall k int :: 0 <= k && k < len(specs) ==> specs[k] != nil
